@@ -21,10 +21,13 @@ class Stepped:
             nm = names_by_id(spec)
             ic = {}
             sizes = var_sizes(spec)
+            same_names = bool(init) and init[0][0] == "$same-names"  # all caller symbols called "x"
+            if same_names:
+                init = init[1:]
             for i, vars_ in init:
                 d = {}
                 for var in vars_:
-                    x = XX.sym(f"{var}_{nm[i]}", sizes[(i, var)], 1)
+                    x = XX.sym("x" if same_names else f"{var}_{nm[i]}", sizes[(i, var)], 1)
                     d[var] = x
                     self.held[(i, var)] = x
                 ic[self.els[i]] = d
